@@ -436,6 +436,9 @@ class Check:
             if klass not in self.known_seen:
                 lines.append("KNOWN-FINDING: property=%s %s: %s (listed; not exercised by this run)" % (self.prop, klass, k["what"]))
         nviol = 0
+        stale = os.path.join(ROOT, "evidence", "replay", "%s_all_violations.txt" % self.prop)
+        if os.path.exists(stale):
+            os.remove(stale)
         if self.violations:
             for i, (what, replay) in enumerate(self.violations[:5]):
                 path = self.write_replay("violation%d" % i, {"what": what, "replay": replay})
